@@ -29,6 +29,8 @@ type c01case struct {
 	Reuse int `json:"reuse,omitempty"`
 	// ExplicitMode: any-predecessor graphs are compiled with an explicit WithNodeTriggerMode(AnyPredecessor)
 	ExplicitMode bool `json:"explicitmode,omitempty"`
+	// StreamConds: branch conditions are built with the stream constructors (graphgen.BuildOpts.StreamConds)
+	StreamConds bool `json:"streamconds,omitempty"`
 	// Malformed: which construction rule of a chain was broken on purpose ("" = none); informative only, the
 	// verdict comes from chainCompiles / chain_compiles on the forest itself
 	Malformed string `json:"malformed,omitempty"`
@@ -94,6 +96,9 @@ func (engine) Generate(r *lib.Rng, tier string, i int) any {
 	}
 	if r.Chance(1, 4) {
 		c.ExplicitMode = true
+	}
+	if r.Chance(1, 4) {
+		c.StreamConds = true
 	}
 	if streamable(&c.Case) {
 		switch x := r.Intn(8); {
@@ -265,6 +270,7 @@ func (engine) Run(c any) lib.Result {
 	}
 	ro.Build.AutoChainKeys = cc.AutoKeys
 	ro.Build.Reuse = cc.Reuse
+	ro.Build.StreamConds = cc.StreamConds
 	if cc.ExplicitMode {
 		anyPred := func(idx int) []compose.GraphCompileOption {
 			if g := &cc.Forest[idx]; g.Front == "graph" && g.Mode == "pregel" {
@@ -304,6 +310,9 @@ func (engine) Run(c any) lib.Result {
 	}
 	if cc.ExplicitMode {
 		res.Tags = append(res.Tags, "compile:explicit-any-predecessor")
+	}
+	if cc.StreamConds {
+		res.Tags = append(res.Tags, "conditions:stream-constructors")
 	}
 	if cc.Reuse != 0 {
 		res.Tags = append(res.Tags, fmt.Sprintf("builders-shared-with-twin:%d", cc.Reuse))
